@@ -10,6 +10,7 @@ mod hist;
 mod m8;
 mod m9;
 mod m10;
+mod cli;
 mod util;
 use util::*;
 
@@ -56,6 +57,10 @@ fn main() {
         ("c17", Some(p)) => m5::replay(&args, "C17", p),
         ("c18", None) => m10::run_c18(&args),
         ("c18", Some(p)) => m5::replay(&args, "C18", p),
+        ("cli09", None) => cli::run_cli_flags(&args, "C09"),
+        ("cli13", None) => cli::run_cli_flags(&args, "C13"),
+        ("cli09", Some(p)) => m5::replay(&args, "C09", p),
+        ("cli13", Some(p)) => m5::replay(&args, "C13", p),
         (other, _) => {
             eprintln!("unknown command {other}");
             std::process::exit(2);
